@@ -1,7 +1,8 @@
 (* Properties_C10.v -- regex matches are genuine, leftmost, greedy/left-biased, right group spans.
    Statements only; proofs are in ReProps*.v. *)
 From Coq Require Import List NArith ZArith.
-From NV Require Import Bytes GenConsts ReSyntax ReParse ReEmit ReVM ReSem RsetDefs ReProps ReProps2 ReProps3 ReProps4 ReProps5 ReProps9 ReGroups ReGroups2 ReStrict.
+From NV Require Import UcSpec.
+From NV Require Import Bytes GenConsts ReSyntax ReParse ReEmit ReVM ReSem RsetDefs ReProps ReProps2 ReProps3 ReProps4 ReProps5 ReProps9 ReGroups ReGroups2 ReStrict ReStrict2.
 Import ListNotations.
 
 (* whatever the backtracking machine reports is a genuine run of the program (cut or no cut) *)
@@ -156,6 +157,29 @@ Print Assumptions C10_rset_index_all.
 Theorem C10_ascii_mbok : forall res, Forall (Forall (fun b => (b < 128)%N)) (somes res) -> somes res <> [] -> mbok (rset_pattern res).
 Proof. exact ascii_patterns_mbok. Qed.
 Print Assumptions C10_ascii_mbok.
+
+(* valid UTF-8 pattern sets satisfy the side condition of C10_accepted_shape (continuation bytes are >= 128) *)
+Theorem C10_valid_utf8_mbok : forall res pss, somes res = map chars pss -> Forall (Forall scalar) pss -> somes res <> [] -> mbok (rset_pattern res).
+Proof. exact somes_valid_mbok. Qed.
+Print Assumptions C10_valid_utf8_mbok.
+
+(* "for a set of patterns the reported index is that of the alternative that matched", without the hypothesis rset_shape:
+   for EVERY set rset_make accepts (mbok: ASCII or valid UTF-8 patterns), whenever rset_find reports idx the match is a
+   derivation through the wrapper group grp[idx] of alternative idx *)
+Theorem C10_rset_index_semantic_all : forall res flg rs d line n fl idx g c,
+  rset_make res flg = Ok (Some rs) -> mbok (rset_pattern res) ->
+  rset_find_d d rs line n fl = (Ok (idx, g), c) -> (0 <= idx)%Z ->
+  let eflg := Z.lor REG_NEWLINE (Z.lor (if has fl RE_NOTBOL then REG_NOTBOL else 0%Z) (if has fl RE_NOTEOL then REG_NOTEOL else 0%Z)) in
+  let f := Z.lor (rs_cflg rs) eflg in
+  let G := Z.to_nat (nth (Z.to_nat idx) (firstn (rs_n rs) (rs_grp rs)) (-1)%Z) in
+  exists body x p s2 r,
+    tree (rs_prog rs) = NGrp body 1 1 1 /\ In (G, x) (wrappers body) /\
+    In p (tried line (length line + 2) 0 0) /\
+    M st (atom_step f line) mark_step (RGrp G (tr x)) (mark_step 2 (mark_step 0 (init p))) s2 /\
+    r = mark_step 1 (mark_step 3 s2) /\
+    regexec_d d (rs_prog rs) (rs_cflg rs) line (rs_grpcnt rs) eflg = (Ok (Some (psub_of (snd r) (rs_grpcnt rs))), c).
+Proof. exact rset_index_semantic_all. Qed.
+Print Assumptions C10_rset_index_semantic_all.
 
 (* the documented backtracking depth is a constant of the specification; the engine's limit is generated *)
 Theorem C10_documented_depth : (256 <= NDEPT)%Z.
